@@ -25,8 +25,8 @@ FIELDS = [
     ("::std::boxed::Box<T>", "<T>", "", "<u16>", "::std::boxed::Box::new(1u16)", "::std::boxed::Box::new(2u16)"),
     # the parameter relaxed in the where-clause only: the impls must carry the relaxation too
     ("::std::boxed::Box<T>", "<T>", "where T: ?::core::marker::Sized", "<str>", "::std::boxed::Box::from(\"q\")", "::std::boxed::Box::from(\"rr\")"),
-    ("&'a T", "<'a, T>", "where T: ?Sized + 'a", "<'static, [u8]>", "&[1u8, 2][..]", "&[3u8][..]"),
-    ("::std::rc::Rc<T>", "<T>", "where T: ?Sized, T: ::core::fmt::Debug", "<[u8]>", "::std::rc::Rc::from(&[1u8, 2][..])", "::std::rc::Rc::from(&[9u8][..])"),
+    ("&'a T", "<'a, T>", "where T: ?::core::marker::Sized + 'a", "<'static, [u8]>", "&[1u8, 2][..]", "&[3u8][..]"),
+    ("::std::rc::Rc<T>", "<T>", "where T: ?::core::marker::Sized, T: ::core::fmt::Debug", "<[u8]>", "::std::rc::Rc::from(&[1u8, 2][..])", "::std::rc::Rc::from(&[9u8][..])"),
     ("*const T", "<T>", "", "<i64>", "::core::ptr::null::<i64>()", "::core::ptr::NonNull::<i64>::dangling().as_ptr() as *const i64"),
 ]
 
@@ -48,7 +48,7 @@ def accept_cases():
                     # concrete field type of the instantiation
                     conc = {"<u16>": tyi.replace("T", "u16"), "<i64>": "i64", "<u8, bool>": "(u8, bool)", "<3>": "[u8; 3]",
                             "<'static, u8>": "&'static [u8]", "<str>": "::std::option::Option<::std::boxed::Box<str>>"}.get(inst, tyi)
-                    if "?Sized" in w or "?::core::marker::Sized" in w:
+                    if "?::core::marker::Sized" in w:
                         conc = tyi.replace("<T>", inst.replace("'static, ", "")) if "<T>" in tyi else tyi.replace("T", inst.strip("<>").split(", ")[-1])
                     elif ty in ("&'a mut T", "&'a T", "*const T"):
                         conc = tyi.replace("T", inst.strip("<>").split(", ")[-1])
